@@ -156,6 +156,10 @@ def run(ctx, rep):
             total = strip_trunc(seqlen(segs))
             ok = equal(val, total, [c for c, _ in I.st.facts])[0]
             if ty in ('srat::RintcAffinity', 'cedt::PortAssociation'): continue     # reported through the constructor view (known findings)
+            if not ok and only_constructed(f, ty) and any(t_ == ty and c_ for (t_, c_) in SPEC.STRUCTS):
+                # the length is kept in private state that nothing but the constructors writes: every receiver is a
+                # constructor result, and those are decided in the constructor view above
+                rep.ob('self-length', '%s:any receiver' % ty, True, detail={'through_constructors': True}); continue
             rep.ob('self-length', '%s:any receiver' % ty, ok, '%s computes length %s but emits %s bytes' % (ty, show(val), show(total)), sp=sp_, detail={'length_field': show(val), 'emitted_bytes': show(total)})
 
     # ------------------------------------------------------------ counts and offsets on symbolic receivers
